@@ -2,7 +2,7 @@
 """Regenerate the second-round table of DESIGN.md section 7b from seeded/*/meta.json (between the markers)."""
 import json, os, re
 V = os.path.dirname(os.path.abspath(__file__))
-strength = json.load(open(os.path.join(V, "seeded", "round2_strengthening.json")))
+strength = json.load(open(os.path.join(V, "seeded_notes.json")))
 rows = ["| seed | change (as described by its author) | caught by (signature of the first failure) | what the first version lacked |",
         "|------|--------------------------------------|---------------------------------------------|-------------------------------|"]
 for d in sorted(os.listdir(os.path.join(V, "seeded"))):
